@@ -67,6 +67,7 @@ fn main() {
         "C10" => rig::props::c10::main(tier, replay),
         "C18" => rig::props::c18::main(tier, replay),
         "C11" => rig::props::c11::main(tier, replay),
+        "C12" => rig::props::c12::main(tier, replay),
         "C13" => rig::props::c13::main(tier, replay),
         "C14" => rig::props::c14::main(tier, replay),
         "C19" => rig::props::c19::main(tier, replay),
